@@ -2,7 +2,9 @@ package main
 
 import (
 	"encoding/binary"
+	"fmt"
 	"math/rand"
+	"os"
 
 	"github.com/miekg/dns"
 
@@ -113,6 +115,58 @@ func tailcut(r *rand.Rand, all []dns.RR) []byte {
 	return o
 }
 
+// sweep is the systematic part of the recorder: for every record of the zoo (and an OPT
+// with each single option) as the last record of a small message, every octet of its RDATA
+// is overwritten with boundary octets and every 16-bit position with 0x0000 / 0xffff / the
+// remaining length -- the fields that mean "length", "count", "key", "type" or "pointer"
+// are all hit without knowing where they are.
+func sweep(all []dns.RR, w *hx.Writer, stride int, phase int) {
+	var lasts []dns.RR
+	for _, rr := range all {
+		lasts = append(lasts, rr)
+	}
+	for _, o := range zoo.Opt().Option {
+		x := zoo.Opt()
+		x.Option = []dns.EDNS0{o}
+		lasts = append(lasts, x)
+	}
+	k := 0
+	for _, last := range lasts {
+		m := new(dns.Msg)
+		m.SetQuestion("example.org.", dns.TypeA)
+		m.Extra = []dns.RR{dns.Copy(last)}
+		b, err := m.Pack()
+		if err != nil {
+			continue
+		}
+		_, off, err := dns.UnpackDomainName(b, 29)
+		if err != nil || off+10 > len(b) {
+			continue
+		}
+		rd := off + 10
+		for p := rd; p < len(b); p++ {
+			k++
+			if k%stride != phase {
+				continue
+			}
+			for _, v := range []byte{0x00, 0xff, 0x40, 0xc0, 0x01} {
+				o := append([]byte(nil), b...)
+				o[p] = v
+				sum.Evaluations++
+				tryMsg(o, w, 300)
+			}
+			if p+1 < len(b) {
+				for _, v := range []uint16{0x0000, 0xffff, uint16(len(b) - p - 2), uint16(len(b) - p - 1), uint16(len(b) - p)} {
+					o := append([]byte(nil), b...)
+					binary.BigEndian.PutUint16(o[p:], v)
+					sum.Evaluations++
+					tryMsg(o, w, 300)
+				}
+			}
+		}
+	}
+}
+
 func record(epath string, n int) {
 	r := hx.Rand()
 	w := hx.NewWriter(epath)
@@ -122,6 +176,13 @@ func record(epath string, n int) {
 		hx.Die("%v", err)
 	}
 	seen := map[string]bool{}
+	if os.Getenv("VERIF_SWEEP") != "" { // "stride/phase": this process takes every stride-th RDATA position
+		var stride, phase int
+		fmt.Sscanf(os.Getenv("VERIF_SWEEP"), "%d/%d", &stride, &phase)
+		if stride > 0 {
+			sweep(all, w, stride, phase)
+		}
+	}
 	for i := 0; i < n; i++ {
 		// a valid base message: small ones are logged for TLC, larger ones only guarded
 		per := 1 + r.Intn(3)
